@@ -45,9 +45,8 @@ def is_html(scanner: BackwardScanner):
                 if consume_ident(scanner): continue
                 break
             elif consume_attribute_with_unquoted_value(scanner):
-                # identifier was a part of unquoted value
-                ok = True
-                break
+                # identifier was a part of unquoted value: keep looking for tag start
+                continue
 
             # invalid tag
             break
@@ -133,7 +132,7 @@ def is_white_space(ch: str):
 
 def is_unquoted_value(ch: str):
     "Check if given code may belong to unquoted attribute value"
-    return ch and ch != Chars.Equals and not is_white_space(ch) and not is_quote(ch)
+    return ch and ch != Chars.Equals and ch != Chars.AngleRight and not is_white_space(ch) and not is_quote(ch)
 
 
 def is_open_bracket(ch: int):
